@@ -17,3 +17,7 @@ case $W in
             if grep -q "unlocked a not-locked lock" $D/out; then grep -m3 "not-locked\|by 0x.*unix_" $D/out; echo "DEFECT: caller's mutex released by flush_cached_blocks(FLUSH_NOLOCK)"; exit 1; fi
             echo "ok: lock pairing intact"; exit 0;;
 esac
+case $W in
+ nocache)   cc -o $D/t -I$R/lib $H/C17_nocache_toggle.c $R/lib/ext2fs/libext2fs.a $R/lib/et/libcom_err.a -lpthread || exit 3
+            dd if=/dev/zero of=$D/img bs=1k count=64 2>/dev/null; $D/t $D/img;;
+esac
